@@ -94,6 +94,25 @@ FATAL = {'ECONNRESET': errno.ECONNRESET, 'EPIPE': errno.EPIPE, 'ETIMEDOUT': errn
          'EHOSTUNREACH': errno.EHOSTUNREACH, 'ECONNABORTED': errno.ECONNABORTED, 'ENOBUFS': errno.ENOBUFS}
 
 
+class KStats:
+    """What the harness remembers about one proxy-side socket (the socket object itself is only weakly referenced)."""
+
+    def __init__(self, kname: str) -> None:
+        self.kname = kname
+        self.n: collections.Counter = collections.Counter()
+        self.bytes_out = 0
+        self.bytes_in = 0
+        self.short = 0
+        self.blocked = 0
+        self.fired: List[Tuple[str, int, str]] = []
+        self.explicit_close = False
+        self.gone_iter: Optional[int] = None      # iteration at which the proxy learnt (EOF / error) that the peer is gone
+
+
+def _stat_property(name: str) -> Any:
+    return property(lambda self: getattr(self.st, name), lambda self, v: setattr(self.st, name, v))
+
+
 class KSock(socket.socket):
     """Adopts one end of a real pair.  Only restricts what a kernel may legitimately do (accept fewer bytes,
     report would-block) or raises errnos documented for the call (then kills the socket)."""
@@ -108,20 +127,23 @@ class KSock(socket.socket):
         self.faults: Dict[Tuple[str, int], str] = {(k[0], int(k[1])): v for k, v in (self.plan.get('faults') or {}).items()} \
             if not isinstance(self.plan.get('faults'), list) else {(f[0], int(f[1])): f[2] for f in self.plan['faults']}
         self.mode = 'blocking'
-        self.n = collections.Counter()
-        self.bytes_out = 0
-        self.bytes_in = 0
-        self.short = 0
-        self.blocked = 0
-        self.fired: List[Tuple[str, int, str]] = []
-        self.explicit_close = False
-        self.gone_iter: Optional[int] = None      # iteration at which the proxy learnt (EOF / error) that the peer is gone
-        if world.weak_ksocks:
-            import weakref
-            # C10: the harness must not keep proxy-side sockets alive; finalisation by refcount is observable
-            world.ksock_refs.append((name, weakref.ref(self)))
-        else:
-            world.ksocks.append(self)
+        # The harness must never keep a proxy-side socket alive: a socket the proxy drops without closing is finalised
+        # by reference counting, its descriptor NUMBER is reused by the next socket, and what the executor then does with
+        # its registrations is part of the behaviour under test.  The world therefore holds the statistics object and a
+        # weak reference only.
+        import weakref
+        self.st = KStats(name)
+        world.ksocks.append(self.st)
+        world.ksock_refs.append((name, weakref.ref(self)))
+
+    n = _stat_property('n')
+    bytes_out = _stat_property('bytes_out')
+    bytes_in = _stat_property('bytes_in')
+    short = _stat_property('short')
+    blocked = _stat_property('blocked')
+    fired = _stat_property('fired')
+    explicit_close = _stat_property('explicit_close')
+    gone_iter = _stat_property('gone_iter')
 
     # -- mode emulation: the fd stays non-blocking, the mode the proxy asked for is remembered
     def setblocking(self, flag: bool) -> None:
@@ -441,7 +463,7 @@ class World:
         self.iter = 0
         self.activity = 0
         self.calls = 0
-        self.ksocks: List[KSock] = []
+        self.ksocks: List[KStats] = []
         self.peers: Dict[str, Peer] = collections.OrderedDict()
         self.clients: List[Tuple[Peer, Dict[str, Any]]] = []      # not yet opened
         self.accept_q: List[Tuple[socket.socket, Any]] = []
@@ -656,11 +678,13 @@ class World:
                     p.sock.close()
                 except OSError:
                     pass
-        for ks in self.ksocks:
-            try:
-                socket.socket.close(ks)
-            except OSError:
-                pass
+        for _name, ref in self.ksock_refs:
+            ks = ref()
+            if ks is not None:
+                try:
+                    socket.socket.close(ks)
+                except OSError:
+                    pass
         ex = self.executor
         if ex is not None:
             try:
